@@ -41,6 +41,8 @@ func c06Fmt(res Result) (out []string) {
 		r = "N"
 	case Rewritten:
 		r = "R"
+	case FilteredBlockList:
+		r = "B"
 	default:
 		r = "X" + vutil.Itoa(int(res.Reason))
 	}
